@@ -106,7 +106,15 @@ def model_value(m, v):
 
 def extract_inputs(I, m):
     out = {}
+    try:
+        declared = {d.name() for d in m.decls()}
+    except Exception:  # noqa
+        declared = None
     for name, v in I.sym_inputs:
+        # sym_int/sym_real called after a case split creates one variable per path under the same input name: report
+        # the one the model talks about, not the (unconstrained, completed to 0) variable of another path
+        if declared is not None and name in out and z3.is_expr(v) and z3.is_const(v) and v.decl().name() not in declared:
+            continue
         try:
             if isinstance(v, tuple) and v[0] == "list":
                 n = model_value(m, v[1])
